@@ -265,7 +265,10 @@ func destLeaf(v ssa.Value) string {
 	return ""
 }
 
-// nullableCopied: after a Scan into a sql.Null* local, the value is copied into the result field when Valid.
+// scanLocalsCopied: the nullable column `col` of the statement's SELECT list is scanned into a sql.Null* local;
+// that local's value field is what is stored into the result field `field` - in the storage method itself or
+// in a helper that is new on this tree and receives the local (by value) from it. The local is identified as
+// the Scan destination bound to the column, not by its name.
 func (c *Ctx) scanLocalsCopied(rule string, method string, pairs map[string]string) {
 	R := c.R
 	for _, st := range c.V.Stmts[method] {
@@ -274,29 +277,121 @@ func (c *Ctx) scanLocalsCopied(rule string, method string, pairs map[string]stri
 		}
 		f := st.Fn
 		fk := c.P.FuncKey(f)
-		for local, field := range pairs {
+		cols := st.SQL.Cols
+		if len(cols) == 1 && cols[0] == "*" && c.V.Schema != nil {
+			if tab := c.V.Schema.Tables[st.SQL.Table]; tab != nil {
+				cols = tab.ColNames()
+			}
+		}
+		for col, field := range pairs {
+			var dest *ssa.Alloc
+			for i, cn := range cols {
+				if strings.EqualFold(cn, col) && i < len(st.Dests) {
+					dv := st.Dests[i]
+					if mi, ok := dv.(*ssa.MakeInterface); ok {
+						dv = mi.X
+					}
+					dest, _ = dv.(*ssa.Alloc)
+				}
+			}
+			if dest == nil {
+				R.Check(rule, fk, "nullable "+col+" copied into "+field, c.P.Pos(f.Pos()), false, "the nullable column scanned into "+col+" is copied into the result's "+field, "scan destination of the column is not a local")
+				continue
+			}
+			// is v the value field of (a copy of) the destination local?
+			var fromDest func(v ssa.Value, g *ssa.Function, depth int) bool
+			isDestVal := func(x ssa.Value, g *ssa.Function, depth int) bool {
+				// x is the struct value: a load of the destination, or a parameter every caller binds to such a load
+				switch y := x.(type) {
+				case *ssa.UnOp:
+					if al, ok := y.X.(*ssa.Alloc); ok {
+						if al == dest {
+							return true
+						}
+						// a parameter spilled into a local of the helper
+						for _, ref := range *al.Referrers() {
+							if sto, ok := ref.(*ssa.Store); ok && sto.Addr == al {
+								if prm, ok := sto.Val.(*ssa.Parameter); ok {
+									return fromDest(prm, g, depth+1)
+								}
+							}
+						}
+					}
+				case *ssa.Parameter:
+					return fromDest(y, g, depth+1)
+				}
+				return false
+			}
+			fromDest = func(v ssa.Value, g *ssa.Function, depth int) bool {
+				if depth > 3 {
+					return false
+				}
+				if prm, ok := v.(*ssa.Parameter); ok {
+					var sites []ssa.CallInstruction
+					for _, site := range c.callersOf(g) {
+						for _, pf := range c.OpFuncs(f) {
+							if site.Parent() == pf {
+								sites = append(sites, site)
+							}
+						}
+					}
+					if len(sites) == 0 {
+						return false
+					}
+					for _, site := range sites {
+						idx := -1
+						for i, p := range g.Params {
+							if p == prm {
+								idx = i
+							}
+						}
+						if idx < 0 || idx >= len(site.Common().Args) || !isDestVal(site.Common().Args[idx], site.Parent(), depth) {
+							return false
+						}
+					}
+					return true
+				}
+				return false
+			}
 			found := false
-			for _, b := range f.Blocks {
-				for _, in := range b.Instrs {
-					s, ok := in.(*ssa.Store)
-					if !ok {
-						continue
-					}
-					fa, ok := s.Addr.(*ssa.FieldAddr)
-					if !ok || fieldName(fa) != field {
-						continue
-					}
-					// value is a load of local.String (or .Bool/.Int64)
-					if ld, ok := UnwrapConv(s.Val).(*ssa.UnOp); ok {
-						if fa2, ok := ld.X.(*ssa.FieldAddr); ok {
-							if al, ok := fa2.X.(*ssa.Alloc); ok && al.Comment == local {
+			for _, g := range c.OpFuncs(f) {
+				for _, b := range g.Blocks {
+					for _, in := range b.Instrs {
+						s, ok := in.(*ssa.Store)
+						if !ok {
+							continue
+						}
+						fa, ok := s.Addr.(*ssa.FieldAddr)
+						if !ok || fieldName(fa) != field {
+							continue
+						}
+						switch ld := UnwrapConv(s.Val).(type) {
+						case *ssa.UnOp:
+							// load of <struct>.String through its address
+							if fa2, ok := ld.X.(*ssa.FieldAddr); ok {
+								if al, ok := fa2.X.(*ssa.Alloc); ok {
+									if al == dest {
+										found = true
+									} else {
+										for _, ref := range *al.Referrers() {
+											if sto, ok := ref.(*ssa.Store); ok && sto.Addr == al {
+												if prm, ok := sto.Val.(*ssa.Parameter); ok && fromDest(prm, g, 0) {
+													found = true
+												}
+											}
+										}
+									}
+								}
+							}
+						case *ssa.Field:
+							if isDestVal(ld.X, g, 0) {
 								found = true
 							}
 						}
 					}
 				}
 			}
-			R.Check(rule, fk, "nullable "+local+" copied into "+field, c.P.Pos(f.Pos()), found, "the nullable column scanned into "+local+" is copied into the result's "+field, "no copy found")
+			R.Check(rule, fk, "nullable "+col+" copied into "+field, c.P.Pos(f.Pos()), found, "the nullable column scanned into "+col+" is copied into the result's "+field, "no copy found")
 		}
 	}
 }
